@@ -310,3 +310,176 @@ txout!(txout_1_9_33, 1, 9, 33);
 txout!(txout_1_33_33, 1, 33, 33);
 txout!(txout_33_1_33, 33, 1, 33);
 //@end
+
+
+// ---------------------------------------------------------------- TxIn
+/// TxIn layout: outpoint(36) script(1+S) sequence(4) [issuance: nonce(32) entropy(32) amount(AM) keys(KE)]
+/// ISS = 0: the issuance flag (bit 31 of the index field) is clear or the index is 0xffffffff;
+/// ISS = 1: flag set, amount/keys layout classes AM, KE in {1, 9, 33}. Script length SL concrete per shard.
+fn txin_shard<const ISS: usize, const SL: usize, const AM: usize, const KE: usize, const TOTAL: usize>() {
+    let mut buf: [u8; TOTAL] = kani::any();
+    let idx = u32::from_le_bytes([buf[32], buf[33], buf[34], buf[35]]);
+    let flagged = idx != 0xffff_ffff && idx & (1 << 31) != 0;
+    kani::assume(flagged == (ISS == 1));
+    buf[36] = SL as u8;
+    if ISS == 1 {
+        let a = 36 + 1 + SL + 4 + 64;
+        if AM == 1 { buf[a] = 0 } else if AM == 9 { buf[a] = 1 } else { kani::assume(buf[a] > 1) }
+        if KE == 1 { buf[a + AM] = 0 } else if KE == 9 { buf[a + AM] = 1 } else { kani::assume(buf[a + AM] > 1) }
+    }
+    let len: usize = kani::any();
+    kani::assume(len <= TOTAL);
+    let mut rd: &[u8] = &buf[..len];
+    match TxIn::consensus_decode(&mut rd) {
+        Ok(v) => {
+            let consumed = len - rd.len();
+            let mut out = [0u8; TOTAL];
+            let mut w: &mut [u8] = &mut out[..];
+            let n = v.consensus_encode(&mut w);
+            let written = TOTAL - w.len();
+            assert!(matches!(n, Ok(k) if k == written), "reported length == bytes written");
+            assert!(written == consumed, "re-encoding has the consumed length");
+            let mut i = 0;
+            let mut same = true;
+            while i < TOTAL {
+                if i < consumed {
+                    same &= out[i] == buf[i];
+                }
+                i += 1;
+            }
+            assert!(same, "re-encoding reproduces the consumed bytes exactly");
+            // flags: bit 30 = pegin, bit 31 = issuance, except for the all-ones index
+            assert!(v.is_pegin == (idx != 0xffff_ffff && idx & (1 << 30) != 0), "pegin flag is bit 30 of the index field unless the index is 0xffffffff");
+            assert!(v.has_issuance() == flagged, "issuance present iff bit 31 is set (and the index is not 0xffffffff)");
+            assert!(v.previous_output.vout == if idx == 0xffff_ffff { idx } else { idx & 0x3fff_ffff }, "stored index has no flag bits");
+            assert!(v.witness.is_empty(), "a bare TxIn decodes without witness");
+            kani::cover!(idx == 0xffff_ffff, "all-ones index with a non-zero txid accepted");
+            kani::cover!(consumed == TOTAL - 1, "full-length input accepted");
+            core::mem::forget(n);
+            core::mem::forget(v);
+        }
+        Err(e) => core::mem::forget(e),
+    }
+}
+macro_rules! txin {
+    ($name:ident, $iss:expr, $sl:expr, $am:expr, $ke:expr, $u:literal) => {
+        #[kani::proof]
+        #[kani::unwind($u)]
+        pub fn $name() {
+            txin_shard::<$iss, $sl, $am, $ke, { 36 + 1 + $sl + 4 + $iss * (64 + $am + $ke) + 1 }>();
+        }
+    };
+}
+//@begin prop=C01 tier=quick secp=1 mem=20 timeout=2400 desc="TxIn decode->encode exact per layout class (issuance flag, script length, amount/keys class), all truncations; flag bits vs 0xffffffff index; null-null issuance rejected" unsat_ok="all-ones index"
+txin!(txin_plain_s0, 0, 0, 1, 1, 46);
+txin!(txin_plain_s2, 0, 2, 1, 1, 48);
+//@end
+//@begin prop=C01 tier=thorough secp=1 mem=44 timeout=5400 desc="TxIn decode->encode exact, issuance layout classes (incl. null-null issuance rejected)" unsat_ok="all-ones index"
+txin!(txin_iss_9_1, 1, 1, 9, 1, 122);
+txin!(txin_iss_1_9, 1, 0, 1, 9, 120);
+txin!(txin_iss_1_1, 1, 0, 1, 1, 112);
+txin!(txin_iss_33_9, 1, 0, 33, 9, 152);
+txin!(txin_iss_9_33, 1, 0, 9, 33, 152);
+txin!(txin_iss_33_33, 1, 1, 33, 33, 178);
+txin!(txin_iss_9_9, 1, 0, 9, 9, 128);
+//@end
+
+
+// ---------------------------------------------------------------- AssetIssuance (flat: nonce, entropy, amount, keys)
+fn issuance_shard<const AM: usize, const KE: usize, const TOTAL: usize>() {
+    let mut buf: [u8; TOTAL] = kani::any();
+    if AM == 1 { buf[64] = 0 } else if AM == 9 { buf[64] = 1 } else { kani::assume(buf[64] > 1) }
+    if KE == 1 { buf[64 + AM] = 0 } else if KE == 9 { buf[64 + AM] = 1 } else { kani::assume(buf[64 + AM] > 1) }
+    let len: usize = kani::any();
+    kani::assume(len <= TOTAL);
+    let mut rd: &[u8] = &buf[..len];
+    match AssetIssuance::consensus_decode(&mut rd) {
+        Ok(v) => {
+            let consumed = len - rd.len();
+            let mut out = [0u8; TOTAL];
+            let mut w: &mut [u8] = &mut out[..];
+            let n = v.consensus_encode(&mut w);
+            let written = TOTAL - w.len();
+            assert!(matches!(n, Ok(k) if k == written) && written == consumed && consumed == 64 + AM + KE, "lengths agree");
+            let mut i = 0;
+            let mut same = true;
+            while i < TOTAL {
+                if i < consumed {
+                    same &= out[i] == buf[i];
+                }
+                i += 1;
+            }
+            assert!(same, "re-encoding reproduces the consumed bytes exactly");
+            assert!(v.is_null() == (AM == 1 && KE == 1), "null issuance <=> both amounts null");
+            kani::cover!(true, "accepted");
+            core::mem::forget(n);
+        }
+        Err(e) => core::mem::forget(e),
+    }
+}
+macro_rules! iss {
+    ($name:ident, $am:expr, $ke:expr, $u:literal) => {
+        #[kani::proof]
+        #[kani::unwind($u)]
+        pub fn $name() {
+            issuance_shard::<$am, $ke, { 64 + $am + $ke + 1 }>();
+        }
+    };
+}
+//@begin prop=C01 tier=quick secp=1 mem=16 timeout=2400 desc="AssetIssuance decode->encode exact per (amount, keys) layout class, all truncations; blinding nonce must be a valid scalar or zero"
+iss!(issuance_9_1, 9, 1, 78);
+iss!(issuance_33_9, 33, 9, 110);
+iss!(issuance_1_1, 1, 1, 70);
+//@end
+//@begin prop=C01 tier=thorough secp=1 mem=16 timeout=3000 desc="AssetIssuance, remaining layout classes"
+iss!(issuance_1_9, 1, 9, 78);
+iss!(issuance_9_9, 9, 9, 86);
+iss!(issuance_33_33, 33, 33, 134);
+iss!(issuance_9_33, 9, 33, 110);
+iss!(issuance_33_1, 33, 1, 102);
+iss!(issuance_1_33, 1, 33, 102);
+//@end
+
+//@ prop=C01 tier=quick secp=1 mem=20 timeout=2400 desc="TxIn value side (no issuance): any txid, index < 2^30 with either pegin flag or the all-ones index with ANY txid, 2-byte script_sig: decode(encode(v)) == v fieldwise, decoder consumes exactly what was written"
+#[kani::proof]
+#[kani::unwind(48)]
+pub fn txin_value_plain() {
+    let txid: [u8; 32] = kani::any();
+    let vout: u32 = kani::any();
+    let pegin: bool = kani::any();
+    kani::assume(vout < (1 << 30) || (vout == 0xffff_ffff && !pegin));
+    let ssig: [u8; 2] = kani::any();
+    let seq: u32 = kani::any();
+    let v = TxIn {
+        previous_output: OutPoint::new(elements::Txid::from_byte_array(txid), vout),
+        is_pegin: pegin,
+        script_sig: Script::from(ssig.to_vec()),
+        sequence: Sequence(seq),
+        asset_issuance: AssetIssuance::default(),
+        witness: TxInWitness::default(),
+    };
+    let mut out = [0u8; 48];
+    let mut w: &mut [u8] = &mut out[..];
+    let n = v.consensus_encode(&mut w);
+    let written = 48 - w.len();
+    assert!(matches!(n, Ok(k) if k == written) && written == 36 + 3 + 4, "outpoint + script + sequence");
+    let mut rd: &[u8] = &out[..written];
+    match TxIn::consensus_decode(&mut rd) {
+        Ok(d) => {
+            assert!(rd.is_empty(), "decoder consumes exactly what the encoder wrote");
+            assert!(d.previous_output.vout == vout && d.is_pegin == pegin && !d.has_issuance() && d.sequence.0 == seq, "index, flags and sequence survive");
+            let t = elements::hashes::Hash::to_byte_array(d.previous_output.txid);
+            assert!(crate::refm::eq32(&t, &txid), "txid survives");
+            let s = d.script_sig.as_bytes();
+            assert!(s.len() == 2 && s[0] == ssig[0] && s[1] == ssig[1], "script_sig survives");
+            kani::cover!(vout == 0xffff_ffff && txid[0] != 0, "all-ones index with a non-zero txid");
+            core::mem::forget(d);
+        }
+        Err(e) => {
+            core::mem::forget(e);
+            assert!(false, "decoder accepts what the encoder wrote");
+        }
+    }
+    core::mem::forget(n);
+    core::mem::forget(v);
+}
